@@ -713,7 +713,8 @@ class Network:
             async with atimeout(timeout):
                 _, response = await future
         except TimeoutError as exc:
-            future.set_exception(exc)
+            if not future.done():
+                future.set_exception(exc)
             raise
 
         return response
@@ -753,7 +754,8 @@ class Network:
             async with atimeout(timeout):
                 _, response = await future
         except TimeoutError as exc:
-            future.set_exception(exc)
+            if not future.done():
+                future.set_exception(exc)
             raise
 
         return response
